@@ -334,11 +334,42 @@ def gen_decimal(rng, max_digits=17, emax=30):
     return m, rng.randint(-emax, emax) if rng.random() < 0.5 else -rng.randint(0, min(nd, 6))
 
 
+def gen_integer(rng):
+    """An integer of any magnitude: 1..25 digits, and the neighbourhood of 2**53, 2**63, 2**64 (where float64 and the
+    machine integers stop being exact)."""
+    k = rng.random()
+    if k < 0.35:
+        v = rng.choice([2 ** 53, 2 ** 63, 2 ** 64, 2 ** 31, 2 ** 32, 10 ** 15, 10 ** 16, 10 ** 17, 2 ** 24]) + rng.randint(-3, 3)
+    elif k < 0.8:
+        nd = rng.randint(1, 25)
+        v = rng.randint(10 ** (nd - 1) - 1, 10 ** nd)
+    else:
+        v = rng.choice([0, 1, 2, 7, 100, 999, 12345678901234567, 9007199254740993, 18446744073709551615, 10 ** 12, 10 ** 20])
+    return -v if rng.random() < 0.35 else v
+
+
+def gen_typed_literal(rng):
+    """(text, canonical typed value as the harness writes it) for a value/description field, in spellings the content
+    printer does not produce: integers with sign / leading zeros at every magnitude, floats, yes/no in any case.
+    The reference typing is Python's own int()/float() applied to the text (exact integer, float.hex)."""
+    k = rng.randrange(5)
+    if k <= 2:
+        v = gen_integer(rng)
+        t = ('-' if v < 0 else rng.choice(['', '', '+'])) + rng.choice(['', '', '0', '000']) + str(abs(v))
+        return t, ['i', int(t)]
+    if k == 3:
+        c = gen_literal(rng)
+        return c[1], ['f', _fhex(float(c[1]))] if not c[1].lstrip('+-').isdigit() else ['i', int(c[1])]
+    t = rng.choice(['YES', 'yes', 'Yes', 'yEs', 'NO', 'no', 'No', 'nO'])
+    return t, ['b', 1 if t.lower() == 'yes' else 0]
+
+
 def gen_value(rng):
     r = rng.random()
-    if r < 0.2: return ['i', rng.choice([0, 1, -1, 2, 7, 100, -999, 10 ** 12, -10 ** 20, rng.randint(-10 ** 9, 10 ** 9)])]
+    if r < 0.2: return ['i', gen_integer(rng) if rng.random() < 0.6 else rng.choice([0, 1, -1, 2, 7, 100, -999, rng.randint(-10 ** 9, 10 ** 9)])]
     if r < 0.45:
         m, e = gen_decimal(rng, emax=rng.choice([5, 30, 330]))
+        if rng.random() < 0.03: e = rng.choice([1, -1]) * rng.choice([401, 10 ** 6, 10 ** 12])     # far outside the double range
         return ['f', m, e]
     if r < 0.55: return ['b', rng.randint(0, 1)]
     if r < 0.8: return ['t', rng.choice(_TEXT_VALUES)]
@@ -378,7 +409,10 @@ def gen_literal(rng):
     n, a, b = rng.randint(0, 10 ** rng.randint(1, 9)), rng.randint(0, 9999), rng.randint(0, 30)
     sg, sv = rng.choice([('', 1), ('-', -1), ('+', 1)])
     fr = ''.join(rng.choice('0123456789') for _ in range(rng.randint(1, 6)))
-    k = rng.randrange(7)
+    k = rng.randrange(8)
+    if k == 7:                                                                           # huge decimal exponents: inf / 0.0 for float()
+        x = rng.choice([400, 4000, 999999999, 10 ** 12, 12345678901234567890]) * rng.choice([1, -1])
+        return ['l', f'{sg}{a}.{fr}E{x:+d}', sv * int(str(a) + fr), x - len(fr)]
     if k == 0: return ['l', f'{sg}{n}', sv * n, 0]                                   # no decimal point ('.0f')
     if k == 1: return ['l', '-0.' + '0' * len(fr), 0, -len(fr)]                       # negative zero text
     if k == 2: return ['l', f'{sg}{a}E{b}', sv * a, b]
